@@ -5,3 +5,5 @@ package oras
 // Export shims for the verification harness (overlay only; never on disk in /repo).
 
 var VerifFindRoots = findRoots
+
+var VerifRemoveForeignLayers = removeForeignLayers
